@@ -165,7 +165,7 @@ class Hist:
                     d["src"] = ("import math\n" if imp else "") + top_src(expr)
                 k += 1
                 items.append(d)
-        return {"id": self.id, "g0": self.g0, "lib": lib, "items": items}
+        return {"id": self.id, "g0": self.g0, "lib": lib, "items": items, "plain": sorted(getattr(self, "plain", []))}
 
 
 KINDS = ["normal", "gated", "err", "panic", "frames", "stack", "spin"]
@@ -299,7 +299,37 @@ def gen_history(hid, rng, length, kinds=None, apis=None, repl=None):
             pending.append(ctx)
         if "diverge" in h.tags:
             break
+    # some of the contexts that are never cancelled are context.Background() itself: no Done channel, no watcher
+    used = {}
+    for it in h.items:
+        if it[0] == "inv":
+            used.setdefault(it[2], []).append(it)
+    h.plain = [c for c in sorted(used) if c not in h.cancelled and "diverge" not in h.tags and rng.chance(1, 2)]
     return h
+
+
+def module_histories():
+    """an invocation whose `import` fails with a recovered Go panic inside the module's top-level code (a panicking host
+    builtin, frame exhaustion), followed by invocations that import the same module again: outside the Coq model
+    (it has no importer), judged by the new-VM oracle only"""
+    out = []
+    n = 0
+    for mod, val in (("pm", 7), ("po", 8)):
+        for a1 in ("RC", "RN"):
+            for a2 in ("RC", "RN", "CL"):
+                for again in (False, True):
+                    lib = LIB_BASE
+                    items = [{"k": "inv", "api": a1, "ctx": 0, "gates": [], "src": "addg(200)\nimport %s\n%s.val" % (mod, mod)}]
+                    if a2 == "CL":
+                        lib += "func c1() { addg(-500); import %s; return %s.val }\n" % (mod, mod)
+                        items.append({"k": "inv", "api": "CL", "ctx": 1, "gates": [], "fn": "c1", "src": ""})
+                    else:
+                        items.append({"k": "inv", "api": a2, "ctx": 1, "gates": [], "src": "addg(-500)\nimport %s\n%s.val" % (mod, mod)})
+                    if again:
+                        items.append({"k": "inv", "api": "RC", "ctx": 2, "gates": [], "src": "import %s\n%s.val + 1" % (mod, mod)})
+                    out.append({"id": "mp%d" % n, "g0": 0, "lib": lib, "items": items, "plain": [2] if again else []})
+                    n += 1
+    return out
 
 
 def enumerate_pairs(rng):
@@ -509,13 +539,33 @@ def _body(res, tier, obs, model, work, proved):
                 if hid == h.id:
                     impl[hid] = rest
         cov["rerun_after_timeout"] = len(redo)
+    # histories with importer modules: oracle only
+    mhs = module_histories()
+    mimpl, merrs2 = run_sharded(obs, [json.dumps(h) for h in mhs], work, "mods")
+    module_viol = []
+    module_evals = 0
+    for h in mhs:
+        line = mimpl.get(h["id"], "")
+        parts = [p.split("|") for p in line.split(";")] if line else []
+        if len(parts) != len(h["items"]) or any(len(p) != 4 for p in parts):
+            module_viol.append({"history": h, "why": "the harness gave no (complete) answer for this history: %r" % line[:200]})
+            continue
+        for k, (shared, g, fresh, fg) in enumerate(parts):
+            module_evals += 1
+            if "TIMEOUT" in shared or "TIMEOUT" in fresh:
+                continue
+            if shared != fresh or g != fg:
+                module_viol.append({"history": h, "k": k, "shared": shared, "g_shared": g, "fresh": fresh, "g_fresh": fg,
+                                    "why": "invocation %d on the reused VM gave %s (global %s); a new VM gives %s (global %s)" % (k, shared, g, fresh, fg)})
+                break
+    cov["module_histories"] = {"histories": len(mhs), "invocations": module_evals}
     if ierrs or merrs or len(impl) != len(hs) or len(mod) != len(hs):
         res.violation({"property": PROP, "kind": "harness-run-failed", "impl_errors": ierrs[:3], "model_errors": merrs[:3],
                        "impl_lines": len(impl), "model_lines": len(mod), "expected": len(hs)}, nofail=True, tag="run")
         return
 
     evals = 0
-    oracle_viol = []
+    oracle_viol = list(module_viol)
     known_hits = {}
     corr_diffs = []
     nontrivial = set()
